@@ -13,6 +13,11 @@
         - a parameter with default that is not given takes the default,
         - keywords that name no parameter are collected by `**kw`.
 
+    * private-name mangling: inside a class body an identifier `__spam` (two leading underscores,
+      not ending in two underscores) is compiled as `_Class__spam` (class name without its leading
+      underscores; no mangling when the class name is all underscores).  A *parameter* so named can
+      therefore not be passed by the keyword the signature shows.
+
   MODELLED, VALIDATED against CPython by the correspondence check (harness/c03.py compiles and
   calls real functions with the same signatures), NOT VERIFIED.  Generic in the value type.
   Core Lean only.
@@ -29,6 +34,19 @@ structure Param where
   name : String
   hasDefault : Bool
   deriving Repr, DecidableEq, Inhabited
+
+def startsWith2 : List Char → Bool
+  | '_' :: '_' :: _ => true
+  | _ => false
+
+/-- is `name` subject to private-name mangling? -/
+def isMangled (name : String) : Bool :=
+  startsWith2 name.toList && !startsWith2 name.toList.reverse
+
+/-- the identifier the compiler actually uses for `name` inside `class cls` -/
+def mangle (cls name : String) : String :=
+  let c := cls.toList.dropWhile (· == '_')
+  if isMangled name && !c.isEmpty then "_" ++ String.ofList c ++ name else name
 
 /-- first repeated element of a list, if any -/
 def firstDup : List String → Option String
